@@ -212,8 +212,21 @@ _WORDS = ["apple", "Pear,", "kiwi!", "—", "de", "x1", "Ünï", "(a)", "b.c", "
 _ENTRY_EXTRAS = [{}, {}, {"id": "custom-id"}, {"ts": "2001-02-03T04:05:06Z"}, {"owner": "world"}, {"id": "dup", "ts": "1999-01-01T00:00:00Z"},
                  {"vec_full": [0.25] * 32}, {"aux": {"importance": 2.0}}, {"slot": 7, "turn": "zz", "agent": "other"}]
 _CHARS = st.one_of(st.sampled_from(list(" \t\n\u00a0\u2003\x1cab1é.,!-_")), st.characters(codec="utf-8"))
+# words joined by ONE separator class each, mostly Unicode whitespace that is not ASCII: the token limit counts
+# whitespace-separated words (str.split()), whatever character separates them
+_SEPS = ["\u00a0", "\u2003", "\u3000", "\u2028", "\u0085", "\u2009", "\u202f", "\u1680", "\x1c", "\x1f", " ", "\t", "\n", "\u00a0 ", "\u2003\u3000"]
+_PLAINWORDS = ["alpha", "beta", "gamma", "Pear", "x1", "Ünï", "日本", "de", "kiwi", "b"]
+
+
+@st.composite
+def _joined_words(draw):
+    words = draw(st.lists(st.sampled_from(_PLAINWORDS), min_size=2, max_size=7))
+    seps = draw(st.lists(st.sampled_from(_SEPS), min_size=len(words) - 1, max_size=len(words) - 1))
+    return words[0] + "".join(sep + w for sep, w in zip(seps, words[1:]))
+
+
 TEXTS = st.one_of(st.sampled_from(_WEIRD), st.lists(st.sampled_from(_WORDS), max_size=12).map(" ".join),
-                  st.text(alphabet=_CHARS, max_size=30))
+                  st.text(alphabet=_CHARS, max_size=30), _joined_words())
 SHORT = st.one_of(st.sampled_from(["", "x", "a b", "a b c d e f", "Ünï ok", " pad ", "a\tb\nc"]),
                   st.lists(st.sampled_from(_WORDS), max_size=5).map(" ".join))
 
@@ -1076,7 +1089,7 @@ def sub_purity(rec, seed, shard, nshards, n=60, shrink=True):
 # ------------------------------------------------------------------------------------------------ unit level: reflect + writer
 
 _WS = list(" \t\n\r\x0b\x0c\x1c\x1d\x1e\x1f\x85\u00a0\u1680\u2000\u2003\u2028\u2029\u202f\u205f\u3000")
-_UTEXT = st.one_of(TEXTS, st.text(alphabet=st.one_of(st.sampled_from(_WS), st.sampled_from(list("abcÄé1.,;!?-_'\"()\u200b\u0307")),
+_UTEXT = st.one_of(TEXTS, _joined_words(), st.text(alphabet=st.one_of(st.sampled_from(_WS), st.sampled_from(list("abcÄé1.,;!?-_'\"()\u200b\u0307")),
                                                       st.characters(codec="utf-8")), max_size=60))
 
 
@@ -1108,6 +1121,8 @@ def check_unit(case, rec=None):
     from types import SimpleNamespace
 
     labels = [f"backend={case['backend']}"]
+    if any(ch.isspace() and ord(ch) > 0x7f for ch in (case["utter"] or "").strip()) and len((case["utter"] or "").split()) > 1:
+        labels.append("utter:words-joined-by-non-ascii-whitespace" + (":limit<=3" if 1 <= case["tokens"] <= 3 else ""))
     nontrivial = False
     with world.sandbox() as base:
         fxp = os.path.join(base, "fixtures.jsonl")
